@@ -209,13 +209,29 @@ def oracle_C02(scn, tr):
                 allowed = {'t'}
         else:
             allowed = {'N': {'n'}, 'R': {'r', 'vr'}, 'W': {'w', 'vw'}}[ty]
+        bad = False
         for cl in calls:
             if call_ci(cl) != ci:
                 fails.append('line %r: resolves to command %d (%s) but a callback of command %d ran' % (ln.text, ci, c.name, call_ci(cl)))
+                bad = True
                 break
             if call_kind(cl) not in allowed:
                 fails.append('line %r: request type %s but callback kind %s ran' % (ln.text, ty, call_kind(cl)))
+                bad = True
                 break
+        if bad or c.only_test:
+            continue
+        # completeness: the selected command's handler must actually be invoked for a form it serves
+        # (only the handler-only cases, where nothing else can legitimately end the line before the call)
+        kinds = [call_kind(cl) for cl in calls]
+        nm = len(c.name)
+        if ty == 'N' and c.run and 'n' not in kinds:
+            fails.append('line %r: selects command %d (%s) which has a run handler, but the handler was not invoked (answer %s)' % (ln.text, ci, c.name, ln.result))
+        elif ty == 'R' and c.r and not any(v.access in (RW, RO) for v in c.vars) and nm + 1 < scn.asz() and 'r' not in kinds:
+            fails.append('line %r: selects command %d (%s) which has a read handler and no readable variable, but the handler was not invoked (answer %s)' % (ln.text, ci, c.name, ln.result))
+        elif ty == 'W' and c.w and not any(v.access in (RW, WO) for v in c.vars) and len(args) < scn.asz() \
+                and not (args[:1] == b'?' and (c.t or c.vars) and not c.implicit) and 'w' not in kinds:
+            fails.append('line %r: selects command %d (%s) which has a write handler and no writable variable, but the handler was not invoked (answer %s)' % (ln.text, ci, c.name, ln.result))
     return fails
 
 
@@ -770,6 +786,59 @@ def out_bytes_until(tr, stop_at):
     return bytes(out)
 
 
+import re as _re
+_CMD_UNIT = _re.compile(rb'^(<[0-9A-M]*>|OK|ERROR|AT[+#A-Z0-9]*(\?|=|=\?)?)$')
+_EV_UNIT = _re.compile(rb'^\{[0-9n-z]*\}$')
+
+
+def oracle_C11_units(scn, tr):
+    """family 'units': parse the accepted output into units and compare, per producer, with the units the
+    handler scripts asked for (in order, none lost, duplicated, cut or mixed)."""
+    fails = []
+    s = bytes(x for x in out_bytes(tr) if x != 13)
+    pos, units = 0, []
+    while pos < len(s):
+        framed = s[pos:pos + 1] == b'\n'
+        start = pos + 1 if framed else pos
+        nxt = s.find(b'\n', start)
+        if nxt < 0:
+            if fully_drained(scn, tr):
+                fails.append('output ends inside a unit: %r' % s[pos:pos + 40])
+            break
+        units.append((s[start:nxt], framed))
+        pos = nxt + 1
+    cmd_units, ev_units = [], []
+    for p, framed in units:
+        if _EV_UNIT.match(p):
+            if not framed:
+                fails.append('event unit %r is not preceded by its own newline (it starts inside another unit)' % p)
+            ev_units.append(p)
+        elif _CMD_UNIT.match(p):
+            cmd_units.append(p)
+        else:
+            fails.append('output segment %r is not a whole unit of either producer (units cut or interleaved)' % p[:60])
+            return fails
+    # expected payload units from the scripts, in call order
+    cnt = {}
+    exp_cmd, exp_ev = [], []
+    for l in tr:
+        t = l.split()
+        if t[0] == 'H' and t[1] in ('r', 't'):
+            key = (1 if t[1] == 'r' else 3, int(t[3]), 0)
+            k = cnt.get(key, 0)
+            cnt[key] = k + 1
+            sc = scn.scripts.get(key, [])
+            if k < len(sc) and sc[k].code in (RC['DATA_OK'], RC['DATA_NEXT']) and sc[k].edit is not None:
+                (exp_cmd if t[2] == '0' else exp_ev).append(bytes(sc[k].edit))
+    if fully_drained(scn, tr):
+        got_cmd = [u for u in cmd_units if u.startswith(b'<')]
+        if got_cmd != exp_cmd:
+            fails.append('command-response data units %r differ from the units the read handler asked for %r' % (got_cmd[:6], exp_cmd[:6]))
+        if ev_units != exp_ev:
+            fails.append('event units %r differ from the units the event handlers asked for %r' % (ev_units[:6], exp_ev[:6]))
+    return fails
+
+
 # ---------------------------------------------------------------- C11
 def oracle_C11(scn, tr):
     """The accepted output stream must be an interleaving-free concatenation of the units the
@@ -783,6 +852,8 @@ def oracle_C11(scn, tr):
         return []
     out = out_bytes(tr)
     fails = []
+    if scn.meta.get('family') == 'units' or scn.name.startswith('un'):
+        fails += oracle_C11_units(scn, tr)
     # grammar: ( NL payload NL | listline NL )*, NL = \n | \r\n, payload without \n
     s = bytes(x for x in out if x != 13)
     if not s:
@@ -847,6 +918,64 @@ def oracle_C13(scn, tr):
                 fails.append('cat_is_unsolicited_buffer_full says not full although %d events wait (capacity %d)' % (depth_lo, cap))
             if st == -5 and depth_hi < cap:
                 fails.append('cat_is_unsolicited_buffer_full says full although at most %d of %d slots can be occupied' % (depth_hi, cap))
+    if (scn.meta.get('family') == 'units' or scn.name.startswith('un')) and not event_side_hold(tr):
+        fails += fifo_exactly_once(scn, tr)
+    # observers at points where the truth is known: right after cat_service returned OK the event machine is
+    # idle and the queue is empty, until the next trigger
+    quiet, cur = False, None
+    for l in tr:
+        t = l.split()
+        if t[0] == '>':
+            cur = t[1:]
+            if cur[0] in ('t', 's', 'S', 'D', 'N'):
+                quiet = False
+        elif t[0] == 'I' and t[1] == 't':
+            quiet = False
+        elif t[0] == '=' and t[1] == 's':
+            quiet = (t[2] == '0')
+        elif quiet and t[0] == '=' and t[1] == 'g' and cur and cur[0] == 'g' and cur[1] == '1' and t[2] != '-1':
+            fails.append('cat_get_processed_command(UNSOLICITED) reports command %s although no event is queued or in progress (cat_service had just returned OK)' % t[2])
+        elif quiet and t[0] == '=' and t[1] == 'q' and t[2] != '0':
+            fails.append('cat_is_unsolicited_event_buffered(%s) reports BUSY although no event is queued or in progress (cat_service had just returned OK)' % ' '.join(cur[1:]))
+    return fails
+
+
+def fifo_exactly_once(scn, tr):
+    """family 'units': every event command has read and test handlers, so each event taken from the queue is
+    visible as a (group of) event-side handler call(s).  Started events must equal the accepted triggers:
+    same order, each exactly once, nothing that was refused."""
+    accepted, started = [], []
+    prev_terminal = True
+    for l in tr:
+        t = l.split()
+        if (t[0] == '=' and t[1] == 't') or (t[0] == 'I' and t[1] == 't'):
+            continue
+        if t[0] == '>' and t[1] == 't':
+            last_trigger = (int(t[2]), int(t[3]))
+        if t[0] == 'H' and t[1] in ('r', 't') and t[2] == '1':
+            code = int(t[-1])
+            if prev_terminal:
+                started.append((int(t[3]), 1 if t[1] == 'r' else 3))
+            prev_terminal = code not in (1, 2)
+    # accepted triggers: '> t ci ty' followed by '= t 0'; inner 'I t ci ty = 0'
+    last = None
+    for l in tr:
+        t = l.split()
+        if t[0] == '>' and t[1] == 't':
+            last = (int(t[2]), int(t[3]))
+        elif t[0] == '=' and t[1] == 't':
+            if int(t[2]) == 0 and last is not None:
+                accepted.append(last)
+            last = None
+        elif t[0] == 'I' and t[1] == 't' and int(t[5]) == 0:
+            accepted.append((int(t[2]), int(t[3])))
+    fails = []
+    n = len(started)
+    if started != accepted[:n]:
+        k = next(i for i in range(n) if i >= len(accepted) or started[i] != accepted[i])
+        fails.append('event #%d taken for processing is %r but the accepted triggers are %r (lost, duplicated or reordered)' % (k, started[k], accepted[max(0, k - 2):k + 3]))
+    elif fully_drained(scn, tr) and n != len(accepted):
+        fails.append('%d events accepted but only %d were ever processed' % (len(accepted), n))
     return fails
 
 
@@ -1217,6 +1346,22 @@ def oracle_C03(scn, tr):
     for l in tr:
         if l.startswith('CANARY') or l.startswith('TAILBYTE') or l.startswith('FAULT'):
             fails.append('out-of-bounds write detected: ' + l)
+    # frame: each machine writes only its own region of the working buffer.  Without any event
+    # activity the event region must still hold the fill byte; without any input the command region.
+    events = any(l.startswith('> t ') or l.startswith('I t ') for l in tr)
+    fed = any(l.startswith('> f ') for l in tr)
+    reinit = any(l.startswith('> N') for l in tr)
+    if not reinit:
+        for l in tr:
+            if l.startswith('B '):
+                t = l.split()
+                cb, ub = unhex(t[1]), unhex(t[2])
+                if not events and any(b != scn.fill for b in ub):
+                    fails.append('the event machine\'s buffer region was modified although no event was ever triggered (command machine wrote outside its region [0,%d)): %s' % (scn.asz(), ub.hex()))
+                    break
+                if not fed and any(b != scn.fill for b in cb):
+                    fails.append('the command machine\'s buffer region was modified although no input was fed: %s' % cb.hex())
+                    break
     return fails
 
 
